@@ -23,6 +23,10 @@ type originEnv struct {
 	bind  map[types.Object]string
 	depth int
 	busy  map[types.Object]bool
+	// parent/bindExpr: the calling environment and the argument expressions bound to this
+	// function's parameters, for following a value back to the caller's variable (rootObj)
+	parent   *originEnv
+	bindExpr map[types.Object]ast.Expr
 }
 
 func newOriginEnv(c *core.Ctx, d *astx.DeclInfo) *originEnv {
@@ -32,13 +36,14 @@ func newOriginEnv(c *core.Ctx, d *astx.DeclInfo) *originEnv {
 // forCallee returns the environment of callee as called by call from e (parameters and receiver
 // bound to the origins of the arguments).
 func (e *originEnv) forCallee(call *ast.CallExpr, callee *astx.DeclInfo) *originEnv {
-	ne := &originEnv{c: e.c, d: callee, info: callee.Pkg.TypesInfo, bind: map[types.Object]string{}, depth: e.depth + 1, busy: map[types.Object]bool{}}
+	ne := &originEnv{c: e.c, d: callee, info: callee.Pkg.TypesInfo, bind: map[types.Object]string{}, depth: e.depth + 1, busy: map[types.Object]bool{}, parent: e, bindExpr: map[types.Object]ast.Expr{}}
 	i := 0
 	if callee.Decl.Type.Params != nil {
 		for _, fl := range callee.Decl.Type.Params.List {
 			for _, nm := range fl.Names {
 				if i < len(call.Args) {
 					ne.bind[ne.info.ObjectOf(nm)] = e.origin(call.Args[i])
+					ne.bindExpr[ne.info.ObjectOf(nm)] = call.Args[i]
 				}
 				i++
 			}
@@ -101,8 +106,10 @@ func scopeEnvsDepth(c *core.Ctx, d *astx.DeclInfo, depth int) []*originEnv {
 
 type localDef struct {
 	expr ast.Expr // nil for multi-result calls and ranges
-	text string   // rendered origin when expr is nil
-	self bool     // the definition mentions the variable itself (x = x.With(…))
+	text string   // rendered origin when expr is nil (ranges, non-call multi-value)
+	call *ast.CallExpr // multi-result call defining the variable as its idx-th result (rendered lazily)
+	idx  int
+	self bool // the definition mentions the variable itself (x = x.With(…), ctx, span := f(ctx))
 	pos  token.Pos
 }
 
@@ -121,7 +128,7 @@ func (e *originEnv) defsOf(obj types.Object) []localDef {
 					defs = append(defs, localDef{expr: x.Rhs[i], self: mentions(x.Rhs[i]), pos: x.Pos()})
 				} else if len(x.Rhs) == 1 {
 					if call, ok := ast.Unparen(x.Rhs[0]).(*ast.CallExpr); ok {
-						defs = append(defs, localDef{text: fmt.Sprintf("%s#%d", e.callOrigin(call, false), i), pos: x.Pos()})
+						defs = append(defs, localDef{call: call, idx: i, self: mentions(call), pos: x.Pos()})
 					} else {
 						defs = append(defs, localDef{text: fmt.Sprintf("?%s#%d", types.ExprString(x.Rhs[0]), i), pos: x.Pos()})
 					}
@@ -136,7 +143,13 @@ func (e *originEnv) defsOf(obj types.Object) []localDef {
 		case *ast.RangeStmt:
 			for k, l := range []ast.Expr{x.Key, x.Value} {
 				if id, ok := l.(*ast.Ident); ok && e.info.ObjectOf(id) == obj {
-					defs = append(defs, localDef{text: fmt.Sprintf("range%d(%s)", k, e.origin(x.X)), pos: x.Pos()})
+					if mentions(x.X) || e.busy[obj] {
+						defs = append(defs, localDef{text: fmt.Sprintf("range%d(?)", k), self: true, pos: x.Pos()})
+					} else {
+						e.busy[obj] = true
+						defs = append(defs, localDef{text: fmt.Sprintf("range%d(%s)", k, e.origin(x.X)), pos: x.Pos()})
+						delete(e.busy, obj)
+					}
 				}
 			}
 		}
@@ -196,11 +209,14 @@ func (e *originEnv) origin(x ast.Expr) string {
 		if base == nil {
 			return "?" + v.Name
 		}
+		e.busy[obj] = true
+		defer delete(e.busy, obj)
+		if base.call != nil {
+			return fmt.Sprintf("%s#%d", e.callOrigin(base.call, false), base.idx)
+		}
 		if base.expr == nil {
 			return base.text
 		}
-		e.busy[obj] = true
-		defer delete(e.busy, obj)
 		return e.origin(base.expr)
 	case *ast.SelectorExpr:
 		if tv, ok := e.info.Types[v]; ok && tv.Value != nil {
@@ -339,4 +355,45 @@ func (e *originEnv) resolveLit(x ast.Expr) (*ast.CompositeLit, *originEnv) {
 		}
 	}
 	return nil, nil
+}
+
+// rootObj follows x (through &/*, plain copies `a := b` and helper parameters back to the caller's
+// argument) to the variable it stands for; nil when x is not a variable.
+func (e *originEnv) rootObj(x ast.Expr) types.Object {
+	for depth := 0; depth < 8; depth++ {
+		switch v := ast.Unparen(x).(type) {
+		case *ast.StarExpr:
+			x = v.X
+			continue
+		case *ast.UnaryExpr:
+			if v.Op == token.AND {
+				x = v.X
+				continue
+			}
+			return nil
+		case *ast.Ident:
+			obj := e.info.ObjectOf(v)
+			if obj == nil {
+				return nil
+			}
+			if arg, ok := e.bindExpr[obj]; ok && e.parent != nil {
+				return e.parent.rootObj(arg)
+			}
+			defs := e.defsOf(obj)
+			if len(defs) == 1 && defs[0].expr != nil {
+				if _, isID := ast.Unparen(defs[0].expr).(*ast.Ident); isID {
+					x = defs[0].expr
+					continue
+				}
+				if u, isU := ast.Unparen(defs[0].expr).(*ast.UnaryExpr); isU && u.Op == token.AND {
+					x = defs[0].expr
+					continue
+				}
+			}
+			return obj
+		default:
+			return nil
+		}
+	}
+	return nil
 }
